@@ -78,6 +78,7 @@ def execute(case):
     ops = case['ops']
     events, mism = [], []
     obj = None
+    grid_binding = True
     for k, op in enumerate(ops):
         act = op['act']
         extra = {}
@@ -104,7 +105,12 @@ def execute(case):
         else:
             raise core.MachineryError('unknown op %r' % (op,))
         events.append(_state_ev(act, obj, extra))
-        if grid and 'iv' in op:
+        # An insertion at an existing breakpoint may legitimately go before or after it (both keep the
+        # lists ascending and paired; the property does not choose): from that step on the expected
+        # states of the deterministic model are no longer binding, the relation InsertOK (trace spec) is.
+        if grid and act == 'insert' and k > 0 and op['x'] in ops[k - 1].get('iv', []):
+            grid_binding = False
+        if grid and grid_binding and 'iv' in op:
             iv, sl, ic = _state(obj)
             exp = ([v / Q for v in op['iv']], [float(v) for v in op['sl']],
                    [v / Q for v in op['ic']])
